@@ -5,13 +5,13 @@
 package interp
 
 import (
+	"sort"
 	"bytes"
 	"fmt"
 	"go/constant"
 	"go/token"
 	"go/types"
 	"os"
-	"reflect"
 	"strings"
 	"unsafe"
 
@@ -1190,12 +1190,26 @@ func callBuiltin(caller *frame, callpos token.Pos, fn *ssa.Builtin, args []value
 	panic("unknown built-in: " + fn.Name())
 }
 
-func rangeIter(x value, t types.Type) iter {
+func rangeIter(fr *frame, x value, t types.Type) iter {
 	switch x := x.(type) {
 	case map[value]value:
-		return &mapIter{iter: reflect.ValueOf(x).MapRange()}
+		it := &snapIter{m: x}
+		for k := range x {
+			it.keys = append(it.keys, k)
+		}
+		it.order(fr)
+		return it
 	case *hashmap:
-		return &hashmapIter{iter: reflect.ValueOf(x.entries()).MapRange()}
+		it := &snapIter{h: x}
+		for _, e := range x.entries() {
+			for ; e != nil; e = e.next {
+				it.keys = append(it.keys, e.key)
+			}
+		}
+		it.order(fr)
+		return it
+	case symStr:
+		panic(unsupported{"range over a string with symbolic bytes"})
 	case string:
 		return &stringIter{Reader: strings.NewReader(x)}
 	}
@@ -1605,4 +1619,65 @@ func fandbits[F floaty](x, y F) F {
 		*(*uint64)(unsafe.Pointer(&x)) &= *(*uint64)(unsafe.Pointer(&y))
 	}
 	return x
+}
+
+// snapIter iterates a map in a deterministic order (sorted by a canonical
+// rendering of the key); with Config.MapOrderChoice the order is a choice point.
+type snapIter struct {
+	m    map[value]value
+	h    *hashmap
+	keys []value
+	pos  int
+}
+
+func (it *snapIter) order(fr *frame) {
+	strs := make([]string, len(it.keys))
+	for i, k := range it.keys {
+		strs[i] = fmt.Sprintf("%T:%s", k, toString(k))
+	}
+	idx := make([]int, len(it.keys))
+	for i := range idx {
+		idx[i] = i
+	}
+	sort.Slice(idx, func(a, b int) bool { return strs[idx[a]] < strs[idx[b]] })
+	keys := make([]value, len(idx))
+	for i, j := range idx {
+		keys[i] = it.keys[j]
+	}
+	it.keys = keys
+	n := len(keys)
+	if fr != nil && fr.i.cfg.MapOrderChoice && n > 1 && fr.fn.Pkg != nil && fr.i.cfg.isTarget(fr.fn.Pkg.Pkg.Path()) {
+		if n <= 3 {
+			// all permutations: choose successive elements
+			rest := append([]value{}, keys...)
+			var out []value
+			for len(rest) > 1 {
+				c := fr.i.s.choose(len(rest))
+				out = append(out, rest[c])
+				rest = append(rest[:c], rest[c+1:]...)
+			}
+			it.keys = append(out, rest...)
+		} else if fr.i.s.choose(2) == 1 {
+			for a, b := 0, n-1; a < b; a, b = a+1, b-1 {
+				keys[a], keys[b] = keys[b], keys[a]
+			}
+		}
+	}
+}
+
+func (it *snapIter) next() tuple {
+	for it.pos < len(it.keys) {
+		k := it.keys[it.pos]
+		it.pos++
+		if it.m != nil {
+			if v, ok := it.m[k]; ok {
+				return []value{true, k, v}
+			}
+			continue
+		}
+		if v := it.h.lookup(k.(hashable)); v != nil {
+			return []value{true, k, v}
+		}
+	}
+	return []value{false, nil, nil}
 }
